@@ -4,6 +4,7 @@ From SV Require Import Model.Common.
 From SV Require Model.Utf8 Model.Parser Model.Template Model.Transforms Model.Routing Model.Serializer Model.Packer
                Model.Framing.
 From SV Require Import Model.Pipeline.
+From SV Require Model.PipelinePool.
 
 
 (* ---------- programs: C15's byte encoding, extended by tags 14 (parseTime) and 15 (redactEmail) ---------- *)
@@ -309,6 +310,12 @@ Definition run_case_C07 (c : case) : bytes :=
         let ntab := Z.to_nat (hd 0%Z zs) in
         let table := take_table ntab ss (tl zs) in
         let seq := map (fun i => nth (Z.to_nat i) table []) (skipn (1 + ntab) zs) in
+        if (k =? 4)%N then
+          (* every record written into the object the previous one released (empty schedule = [sched_default]) *)
+          show_run cfg (PipelinePool.drop_pool
+                          (PipelinePool.process_records_pooled Transforms.tiny_oracles PipelinePool.FlagAssign cfg g_init
+                             (new_conn cfg) [] now 0%Z [] seq))
+        else
         show_run cfg (process_records Transforms.tiny_oracles cfg g_init (new_conn cfg) now 0%Z seq)
     end
   end.
